@@ -222,6 +222,10 @@ def run(tier):
     ncache = cache_histories(vd, os.path.join(bdir, "bin", "zwdrv"), wd, tier, rng)
     norder = compile_order(vd, os.path.join(bdir, "bin", "zwdrv"), wd)
     ncorpus = input_order(vd, os.path.join(bdir, "bin", "zwdrv"), wd, rng, tier)
+    # executions that fail because of the input (a damaged DIE): the second execution on the same Dwarf value must
+    # behave as the first -- a failure leaves nothing half-built behind (section shared with C14)
+    import c14
+    c14.damaged_inputs(vd, os.path.join(bdir, "bin", "zwdrv"), wd)
     # 1. the design: private state per result set, shared immutable op graph
     for body in range(1, 8):
         r = tlc.run_tlc("Api", constants={"PinnedMerge": False, "NSlots": 2 if tier == "quick" else 3,
